@@ -172,4 +172,103 @@ theorem most_free_clause_spec {A : Arr} {n : Nat} (h : Can A n) :
   obtain ⟨c, ds, h1, h2, h3, h4⟩ := tableClause_spec h false
   exact ⟨c, ds, h1, h2, h3, fun ds' hp' => by simpa [R] using h4 ds' hp'⟩
 
+/-! ### the number of fixed variables of a path clause is the number of decisions of the path -/
+
+/-- number of fixed variables (`Some` entries) of a clause -/
+def numFixed : Clause → Nat
+  | [] => 0
+  | none :: t => numFixed t
+  | some _ :: t => numFixed t + 1
+
+theorem getC_cons_zero (a : Option Bool) (t : Clause) : getC (a :: t) 0 = a := by simp [getC]
+theorem getC_cons_succ (a : Option Bool) (t : Clause) (k : Nat) : getC (a :: t) (k + 1) = getC t k := by simp [getC]
+
+theorem numFixed_shift : ∀ (c : Clause) (off : Nat) (ds : List (Nat × Bool)),
+    ds.Pairwise (fun a b => a.1 < b.1) → (∀ d ∈ ds, off ≤ d.1) → (∀ k, getC c k = ds.lookup (k + off)) →
+    numFixed c = ds.length := by
+  intro c
+  induction c with
+  | nil =>
+    intro off ds hs hoff hget
+    cases ds with
+    | nil => rfl
+    | cons d ds =>
+      exfalso
+      have hd := hoff d (List.mem_cons_self ..)
+      have := hget (d.1 - off)
+      have e : d.1 - off + off = d.1 := by omega
+      rw [e, lookup_of_mem hs (List.mem_cons_self ..)] at this
+      simp [getC] at this
+  | cons a t ih =>
+    intro off ds hs hoff hget
+    have h0 := hget 0
+    rw [getC_cons_zero, Nat.zero_add] at h0
+    have hsucc : ∀ k, getC t k = ds.lookup (k + (off + 1)) := by
+      intro k
+      have := hget (k + 1)
+      rw [getC_cons_succ] at this
+      rw [this]
+      congr 1; omega
+    cases ds with
+    | nil =>
+      simp [List.lookup] at h0
+      subst h0
+      simp only [numFixed]
+      exact ih (off + 1) [] hs (by intro d hd; cases hd) hsucc
+    | cons d ds' =>
+      obtain ⟨x, b⟩ := d
+      have hx : off ≤ x := hoff (x, b) (List.mem_cons_self ..)
+      rw [List.pairwise_cons] at hs
+      by_cases hxo : x = off
+      · subst hxo
+        simp [List.lookup] at h0
+        subst h0
+        simp only [numFixed, List.length_cons]
+        congr 1
+        apply ih (x + 1) ds' hs.2
+        · intro d hd; have := hs.1 d hd; simp only at this; omega
+        · intro k
+          rw [hsucc k]
+          have hne : (k + (x + 1) == x) = false := by simp; omega
+          simp [List.lookup, hne]
+      · have hnone : ((x, b) :: ds').lookup off = none :=
+          lookup_none_of_lt (fun d hd => by
+            rcases List.mem_cons.mp hd with rfl | hd'
+            · simp only; omega
+            · have := hs.1 d hd'; simp only at this; omega)
+        rw [hnone] at h0
+        subst h0
+        simp only [numFixed]
+        apply ih (off + 1) ((x, b) :: ds') (List.pairwise_cons.mpr hs)
+        · intro d hd
+          rcases List.mem_cons.mp hd with rfl | hd'
+          · simp only; omega
+          · have := hs.1 d hd'; simp only at this; omega
+        · exact hsucc
+
+theorem numFixed_of_path {A : Arr} {n : Nat} (h : Can A n) {c : Clause} {ds : List (Nat × Bool)}
+    (hp : IsPath A (root A) ds 1) (hget : ∀ k, getC c k = ds.lookup k) : numFixed c = ds.length := by
+  obtain ⟨hs, _, _, _⟩ := path_sorted h ds _ 1 hp h.root_lt
+  exact numFixed_shift c 0 ds hs (fun _ _ => Nat.zero_le _) (by simpa using hget)
+
+/-- `most_fixed_clause`: a path clause with the maximal number of fixed variables among all path clauses -/
+theorem most_fixed_clause_max {A : Arr} {n : Nat} (h : Can A n) :
+    ∃ c, mostFixedClause A = Sel.some c ∧ IsPathClause A c ∧
+      ∀ c', IsPathClause A c' → numFixed c' ≤ numFixed c := by
+  obtain ⟨c, ds, h1, h2, h3, h4⟩ := most_fixed_clause_spec h
+  refine ⟨c, h1, ⟨ds, h2, h3⟩, ?_⟩
+  rintro c' ⟨ds', hp', hg'⟩
+  rw [numFixed_of_path h hp' hg', numFixed_of_path h h2 h3]
+  exact h4 ds' hp'
+
+/-- `most_free_clause`: a path clause with the minimal number of fixed variables among all path clauses -/
+theorem most_free_clause_min {A : Arr} {n : Nat} (h : Can A n) :
+    ∃ c, mostFreeClause A = Sel.some c ∧ IsPathClause A c ∧
+      ∀ c', IsPathClause A c' → numFixed c ≤ numFixed c' := by
+  obtain ⟨c, ds, h1, h2, h3, h4⟩ := most_free_clause_spec h
+  refine ⟨c, h1, ⟨ds, h2, h3⟩, ?_⟩
+  rintro c' ⟨ds', hp', hg'⟩
+  rw [numFixed_of_path h hp' hg', numFixed_of_path h h2 h3]
+  exact h4 ds' hp'
+
 end B.Select
